@@ -94,6 +94,24 @@ class P(framework.Prop):
                 comp = "Or %s %s" % (L, R)
             self.trials.append((kind, L, R, es, ks, d, comp))
             out.append('evalast " %s %s' % (comp, d))
+        # the same laws on expression texts (the parser must not rewrite a compound into something that evaluates differently)
+        self.ttrials = []
+        atoms = ["a", "b", "c", "@", "`1`", "`null`", "`\"x\"`", "'s'", "`[]`", "`false`", "a.b", "a[0]", "b[*]", "length(@)", "type(a)"]
+        for _ in range(500 if tier == "quick" else 30000):
+            def piece():
+                r = rng.random()
+                if r < 0.35:
+                    return "%s %s %s" % (rng.choice(atoms), rng.choice(["<", "<=", ">", ">=", "==", "!="]), rng.choice(atoms))
+                if r < 0.5:
+                    return rng.choice(atoms)
+                return gen.render(rng, gen.gen_expr(rng, rng.choice([1, 2, 3])), 1.0)
+            X, Y = piece(), piece()
+            kind = rng.choice(["not", "not", "and", "or", "pipe", "mlist", "notnot"])
+            comp = {"not": "!(%s)" % X, "notnot": "!!(%s)" % X, "and": "(%s) && (%s)" % (X, Y), "or": "(%s) || (%s)" % (X, Y),
+                    "pipe": "(%s) | (%s)" % (X, Y), "mlist": "[(%s), (%s)]" % (X, Y)}[kind]
+            d = wire.val(rng.choice([gen.rand_doc(rng, 3), {"a": rng.choice([1, "x", None, [1, 2], {"b": 2}, True]), "b": rng.choice([2, "y", [3, None], None, 0.5]), "c": rng.choice(["s", 3, None])}]))
+            self.ttrials.append((kind, X, Y, d, comp))
+            out.append("search %s %s" % (wire.s(comp), d))
         return out
 
     def extra(self, ctx):
@@ -224,4 +242,56 @@ class P(framework.Prop):
                 out.append(("violation", {"case": ev(comp, d), "expected": exp, "observed": cobs,
                                           "detail": "compositional law (%s) fails on the implementation: recombined parts give %s, compound gives %s" % (kind, exp, cobs)}))
         out.append(("count", {"name": "laws_checked_on_impl", "n": checked}))
+        # textual laws
+        falsy = lambda v: v in ("n", "f", '"', "[ ]", "{ }")
+        sr = lambda e, d: "search %s %s" % (wire.s(e), d)
+        t1 = []
+        for kind, X, Y, d, comp in self.ttrials:
+            t1 += [sr(comp, d), sr(X, d), sr(Y, d)]
+        ot = vlib.run_exe(exe, t1)
+        t2, idx = [], {}
+        for k, (kind, X, Y, d, comp) in enumerate(self.ttrials):
+            xv = ok_val(ot[3 * k + 1])
+            if kind == "pipe" and xv is not None and "&" not in xv.split(" "):
+                idx[k] = len(t2)
+                t2.append(sr(Y, xv))
+        o2t = vlib.run_exe(exe, t2)
+        tchecked = 0
+        for k, (kind, X, Y, d, comp) in enumerate(self.ttrials):
+            cobs, xobs, yobs = ot[3 * k:3 * k + 3]
+            xv = ok_val(xobs)
+            if xobs.startswith("ERR parse") or (kind in ("and", "or", "pipe", "mlist") and yobs.startswith("ERR parse")):
+                continue
+            if xv is not None and "&" in xv.split(" "):
+                continue
+            exp = None
+            if xv is None:
+                exp = xobs
+            elif kind == "not":
+                exp = "OK t" if falsy(xv) else "OK f"
+            elif kind == "notnot":
+                exp = "OK f" if falsy(xv) else "OK t"
+            elif kind == "and":
+                exp = xobs if falsy(xv) else yobs
+            elif kind == "or":
+                exp = yobs if falsy(xv) else xobs
+            elif kind == "pipe":
+                exp = o2t[idx[k]] if k in idx else None
+            elif kind == "mlist":
+                yv = ok_val(yobs)
+                if yv is None:
+                    exp = yobs
+                elif "&" in yv.split(" "):
+                    exp = None
+                else:
+                    exp = "OK n" if d == "n" else "OK [ %s %s ]" % (xv, yv)
+            if exp is None:
+                continue
+            tchecked += 1
+            if exp != cobs:
+                if exp.startswith("ERR") and cobs.startswith("ERR") and exp.split(" ")[:3] == cobs.split(" ")[:3]:
+                    continue
+                out.append(("violation", {"case": sr(comp, d), "expected": exp, "observed": cobs,
+                                          "detail": "compositional law (%s, on the expression text) fails on the implementation: parts %s / %s recombine to %s, the compound %s gives %s" % (kind, xobs, yobs, exp, comp, cobs)}))
+        out.append(("count", {"name": "textual_laws_checked_on_impl", "n": tchecked}))
         return out
